@@ -440,6 +440,11 @@ func passesBlocks(c *c11Case, rng *rand.Rand) (string, []string) {
 	if functional {
 		blocks = append(blocks, "sub c11_func STRING {\n  return \"x\";\n}\n")
 	}
+	// readers of per-subroutine linter state (regex captures) that establish none of it themselves: whatever
+	// subroutine is linted before them (c11_probe matches regular expressions) must not change what is reported
+	// (seeded change C11-10: the functional-subroutine scope setter no longer reset the capture state)
+	blocks = append(blocks, fmt.Sprintf("sub c11_fgroup STRING {\n  return re.group.%d;\n}\n", 1+c.Index%3),
+		fmt.Sprintf("sub c11_group {\n  set req.http.R = re.group.%d;\n}\n", 1+(c.Index/3)%3))
 	// duplicated names across declaration kinds: whichever declaration comes first, the same diagnostics
 	// (apart from their locations) must come out.  Each family joins the permuted blocks with probability 1/2.
 	for _, fam := range dupFamilies {
